@@ -26,13 +26,16 @@ VARIABLES st,          \* code-shaped session state
 vars == <<st, mu, hist, bad, lead, seen>>
 
 \* mid: every method, the four meta classes that matter most (long random sequences stay interesting)
-MidLetters == {l \in Letters : l.mt \in {"none", "ok", "nocaps", "newer"}}
+\* (each of the three meta classes once more in a non-plain spelling of its keys)
+MidLetters == {l \in Letters : /\ l.mt \in {"none", "ok", "nocaps", "newer"}
+                               /\ \/ l.sp = "plain"
+                                  \/ <<l.mt, l.sp>> \in {<<"ok", "uni">>, <<"nocaps", "esc">>, <<"newer", "esc">>}}
 Alpha == CASE AlphaSel = "core" -> CoreLetters [] AlphaSel = "mid" -> MidLetters [] OTHER -> Letters
 
 Init == /\ st = St0 /\ mu = Mu0 /\ hist = <<>> /\ bad = {} /\ lead = FALSE /\ seen = {}
 
-Do(m, mt, ip) ==
-  LET l == L(m, mt, ip)
+Do(m, mt, ip, sp) ==
+  LET l == L(m, mt, ip, sp)
       n == Len(hist) + 1
       r == Step(st, l, n)
   IN /\ l \in Alpha
@@ -44,7 +47,7 @@ Do(m, mt, ip) ==
      /\ mu' = PStep(mu, l, r.o, TRUE)
      /\ hist' = Append(hist, l)
 
-Next == \E m \in Methods, mt \in MetaClasses, ip \in InitParamClasses \cup {"na"} : Do(m, mt, ip)
+Next == \E m \in Methods, mt \in MetaClasses, ip \in InitParamClasses \cup {"na"}, sp \in Spellings : Do(m, mt, ip, sp)
 Spec == Init /\ [][Next]_vars
 
 \* ---- design check: the code-shaped model satisfies every clause on every step, except for the
@@ -86,7 +89,7 @@ TableView == <<st.ip, st.idp, mu.acc, mu.inited, mu.modern>>
 WitView == <<st.ip, st.idp, mu.acc, mu.inited, mu.modern, seen>>
 
 \* ---- export of complete sequences (used as an invariant: evaluated once per distinct state)
-LetterJson(l) == [m |-> l.m, mt |-> l.mt, ip |-> l.ip]
+LetterJson(l) == [m |-> l.m, mt |-> l.mt, ip |-> l.ip, sp |-> l.sp]
 Export == IF MaxLen > 0 /\ Len(hist) = MaxLen
           THEN PrintT(ToJson([seq |-> [i \in 1..Len(hist) |-> LetterJson(hist[i])]]))
           ELSE TRUE
